@@ -43,40 +43,66 @@ theorem render_eq_spec (app : App) (r0 : Request) (comb : List Nat) (e : Exc) (h
     · simp only [hs, Bool.false_and, Bool.false_eq_true, if_false]
       cases bodyOf app.stmts v.tag <;> rfl
 
+/-- what the exception view saw (C14's `errorHandler_spec`, second component) is `specSeen` -/
+theorem seen_eq_spec (app : App) (r0 : Request) (comb : List Nat) (e : Exc) (hc : Coherent app.regs)
+    (hw : app.world.ok = true) :
+    (ExcView.errorHandler app.world app.registry app.stmts
+      (excRequest { r0 with permitted := verdict app clsExc (.exc e.sro) (excRequest r0 e comb) } e comb) e []).2.1
+      = specSeen app r0 comb e := by
+  have h := (ExcView.errorHandler_spec app.world app.stmts
+    { r0 with permitted := verdict app clsExc (.exc e.sro) (excRequest r0 e comb) } e comb [] hc hw).2.1
+  rw [allRegs_eq] at h
+  rw [show app.registry = registerAll app.regs from rfl, h]
+  simp only [ExcView.specRender, ExcView.excWinner, excRequest_permitted_swap, allRegs_eq, specSeen, specView]
+  generalize excRequest r0 e comb = rx
+  simp only [candidates_permitted, holds_permitted, verdict_eq app clsExc (.exc e.sro) rx hc]
+  cases (candidates app.regs clsExc rx).find? (fun x => x.holds rx) with
+  | none =>
+    simp only []
+    by_cases ha : anyRegistered app.regs clsExc rx = true
+    · simp only [ha, if_true]
+    · simp only [ha, Bool.false_eq_true, if_false]
+  | some v =>
+    by_cases hs : v.secured = true
+    · by_cases hp : app.permits (.exc e.sro) v.tag = true
+      · simp only [hs, hp, Bool.true_and, Bool.not_true, Bool.false_eq_true, if_false]
+        cases bodyOf app.stmts v.tag <;> rfl
+      · simp only [hs, hp, Bool.true_and, Bool.not_false, if_true]
+    · simp only [hs, Bool.false_and, Bool.false_eq_true, if_false]
+      cases bodyOf app.stmts v.tag <;> rfl
+
 /-- an exception that ended `handle_request` early is rendered as the spec says -/
-theorem tween_early (app : App) (rq : Req) (a : Attrs) (hooks : List Pipeline.Point) (e : Exc) (hc : Coherent app.regs)
+theorem tween_early (app : App) (rq : Req) (a : Attrs) (hooks : List Hook) (e : Exc) (hc : Coherent app.regs)
     (hw : app.world.ok = true) :
     tween app rq a hooks (some e) = specFinish app rq a hooks (.error e) := by
-  simp only [tween, ExcView.handler, specFinish, render_eq_spec app _ _ e hc hw]
+  simp only [tween, ExcView.handler, specFinish, render_eq_spec app _ _ e hc hw, seen_eq_spec app _ _ e hc hw]
 
-/-- the main lookup with the composed verdict: the body of `specView`'s choice, or what the lookup raises -/
-theorem handler_lookup (app : App) (key : CtxKey) (r0 : Request) (hc : Coherent app.regs) :
-    ExcView.handler app.world app.registry app.stmts .lookup { r0 with permitted := verdict app clsView key r0 } 0 =
-      specMain app key r0 := by
+/-- the main lookup with the composed verdict: the body of `specView`'s choice, or what the lookup raises (`nf` when
+nothing is registered) -/
+theorem handler_lookup (app : App) (nf : Exc) (key : CtxKey) (r0 : Request) (hc : Coherent app.regs) :
+    ExcView.handler { app.world with notFound := nf } app.registry app.stmts .lookup
+        { r0 with permitted := verdict app clsView key r0 } 0 = specMain app nf key r0 := by
   simp only [ExcView.handler, lookup_with_verdict app clsView key r0 hc, specMain]
   cases specView app clsView key r0 <;> rfl
 
-theorem raisedWhenNoView_present (app : App) (rq : Req) (hp : rq.pathInfo.isSome = true) :
-    raisedWhenNoView app rq = app.world.notFound := by
-  unfold raisedWhenNoView
-  cases h : rq.pathInfo with
-  | none => rw [h] at hp; cases hp
-  | some _ => rfl
+theorem raisedWhenNoView_eq (app : App) (rq : Req) : raisedWhenNoView app rq = specNotFound app rq := by
+  unfold raisedWhenNoView specNotFound
+  cases rq.pathInfo <;> rfl
 
-/-- the request reached the lookup (`PATH_INFO` present): the tween does what `specMain` + `specFinish` say -/
-theorem tween_lookup (app : App) (rq : Req) (a : Attrs) (hooks : List Pipeline.Point) (hc : Coherent app.regs)
-    (hw : app.world.ok = true) (hp : rq.pathInfo.isSome = true) :
-    tween app rq a hooks none = specFinish app rq a hooks (specMain app (mainKey a) (record app rq a)) := by
-  simp only [tween, raisedWhenNoView_present app rq hp]
-  rw [show ({ app.world with notFound := app.world.notFound } : ExcView.World) = app.world from rfl,
-    handler_lookup app (mainKey a) (record app rq a) hc]
-  cases specMain app (mainKey a) (record app rq a) with
+/-- the request reached the lookup: the tween does what `specMain` + `specFinish` say -/
+theorem tween_lookup (app : App) (rq : Req) (a : Attrs) (hooks : List Hook) (hc : Coherent app.regs)
+    (hw : app.world.ok = true) :
+    tween app rq a hooks none =
+      specFinish app rq a hooks (specMain app (specNotFound app rq) (mainKey a) (record app rq a)) := by
+  simp only [tween, raisedWhenNoView_eq]
+  rw [handler_lookup app (specNotFound app rq) (mainKey a) (record app rq a) hc]
+  cases specMain app (specNotFound app rq) (mainKey a) (record app rq a) with
   | ok resp => rfl
-  | error e => simp only [specFinish, render_eq_spec app _ _ e hc hw]
+  | error e => simp only [specFinish, render_eq_spec app _ _ e hc hw, seen_eq_spec app _ _ e hc hw]
 
-/-- `handle_request` after the route stage, then the tween: the reading's steps 2-4 -/
+/-- `handle_request` after the route stage, then the tween: the reading's steps 2-4 (no virtual-root header) -/
 theorem afterRoute_eq_spec (app : App) (rq : Req) (a : Attrs) (d : Option RouteDecl) (hc : Coherent app.regs)
-    (hw : app.world.ok = true) (hp : rq.pathInfo.isSome = true) :
+    (hw : app.world.ok = true) (hv : rq.vroot = none) :
     tween app rq (afterRoute app rq a d).1 (afterRoute app rq a d).2.1 (afterRoute app rq a d).2.2
       = specAfterRoute app rq a d := by
   unfold afterRoute specAfterRoute
@@ -91,9 +117,60 @@ theorem afterRoute_eq_spec (app : App) (rq : Req) (a : Attrs) (d : Option RouteD
       | some e => exact tween_early app rq _ _ _ hc hw
       | none =>
         dsimp only
-        rw [Trav.traverser_no_vroot root.tree ⟨rq.pathInfo, none, a.matchdict.map travMatchdict⟩ rfl]
-        cases Trav.specTraverser root.tree ⟨rq.pathInfo, none, a.matchdict.map travMatchdict⟩ with
+        rw [Trav.traverser_no_vroot root.tree ⟨rq.pathInfo, rq.vroot, a.matchdict.map travMatchdict⟩ hv]
+        cases Trav.specTraverser root.tree ⟨rq.pathInfo, rq.vroot, a.matchdict.map travMatchdict⟩ with
         | error _ => exact tween_early app rq _ _ _ hc hw
-        | ok t => exact tween_lookup app rq _ _ hc hw hp
+        | ok t => exact tween_lookup app rq _ _ hc hw
+
+/-- two attribute sets that differ at most in `traversed` finish alike up to `traversed` -/
+theorem specFinish_erase (app : App) (rq : Req) (a a' : Attrs) (hooks hooks' : List Hook) (main : Except Exc Resp)
+    (ha : a.eraseTraversed = a'.eraseTraversed)
+    (hh : hooks.map (fun h => (h.1, h.2.eraseTraversed)) = hooks'.map (fun h => (h.1, h.2.eraseTraversed)))
+    (hr : record app rq a = record app rq a') (hcomb : a.combinedSro = a'.combinedSro) :
+    (specFinish app rq a hooks main).eraseTraversed = (specFinish app rq a' hooks' main).eraseTraversed := by
+  cases main with
+  | ok resp => simp only [specFinish, Outcome.eraseTraversed, ha, hh]
+  | error e => simp only [specFinish, Outcome.eraseTraversed, ha, hh, hr, hcomb]
+
+/-- … and with a virtual-root header: the same up to `traversed` (C02's `traverser_agrees_with_spec`) -/
+theorem afterRoute_eq_spec_erased (app : App) (rq : Req) (a : Attrs) (d : Option RouteDecl) (hc : Coherent app.regs)
+    (hw : app.world.ok = true) :
+    (tween app rq (afterRoute app rq a d).1 (afterRoute app rq a d).2.1 (afterRoute app rq a d).2.2).eraseTraversed
+      = (specAfterRoute app rq a d).eraseTraversed := by
+  unfold afterRoute specAfterRoute
+  cases rootIndex app d with
+  | mk ri hook =>
+    dsimp only
+    cases app.roots[ri]? with
+    | none => rw [tween_early app rq _ _ _ hc hw]
+    | some root =>
+      dsimp only
+      cases root.raises with
+      | some e => rw [tween_early app rq _ _ _ hc hw]
+      | none =>
+        dsimp only
+        have hag := Trav.traverser_agrees_with_spec root.tree ⟨rq.pathInfo, rq.vroot, a.matchdict.map travMatchdict⟩
+        cases hm : Trav.traverser root.tree ⟨rq.pathInfo, rq.vroot, a.matchdict.map travMatchdict⟩ with
+        | error x =>
+          cases hs : Trav.specTraverser root.tree ⟨rq.pathInfo, rq.vroot, a.matchdict.map travMatchdict⟩ with
+          | error y =>
+            rw [hm, hs] at hag
+            dsimp only at hag
+            subst hag
+            dsimp only
+            rw [tween_early app rq _ _ _ hc hw]
+          | ok e => rw [hm, hs] at hag; exact absurd hag (by simp)
+        | ok r =>
+          cases hs : Trav.specTraverser root.tree ⟨rq.pathInfo, rq.vroot, a.matchdict.map travMatchdict⟩ with
+          | error y => rw [hm, hs] at hag; exact absurd hag (by simp)
+          | ok e =>
+            rw [hm, hs] at hag
+            dsimp only at hag ⊢
+            obtain ⟨h1, h2, h3, h4, h5, _⟩ := hag
+            rw [tween_lookup app rq _ _ hc hw]
+            have hr : r = { e with traversed := r.traversed } := by
+              cases r; cases e; simp_all
+            rw [hr]
+            exact specFinish_erase app rq _ _ _ _ _ rfl rfl rfl rfl
 
 end Pyr.Router
